@@ -16,7 +16,7 @@ RULE = ('one run = one client connection to a real executor configured with draw
         'non-trivial = the header is present (any variant) or the request is segmented; distinct = distinct digests')
 PROBES = ['absent', 'canonical', 'other_scheme', 'wrong_token', 'reencoded', 'whitespace', 'params', 'duplicate',
           'raw_credentials', 'connect_method', 'segmented', 'followup', 'user_plugins', 'rejected_407', 'served',
-          'either_rejected', 'either_served', 'coalesced_followups', 'upgrade_followup', 'auth_listed_explicitly']
+          'either_rejected', 'either_served', 'coalesced_followups', 'upgrade_followup', 'auth_listed_explicitly', 'disabled_headers']
 COMPONENTS = {
     'real': ['proxy/http/proxy/auth.py', 'proxy/http/proxy/server.py', 'proxy/http/handler.py', 'proxy/common/flag.py '
              '(plugin ordering)', 'proxy/http/parser/*', 'proxy/http/exception/proxy_auth_failed.py',
@@ -182,6 +182,10 @@ def run_one(tape: Any, cfg: Dict[str, Any], forbid: FrozenSet[str] = frozenset()
             # (runs that keep a small buffer carry the feature coalesced_split_read: known finding, see known_findings.json)
             if 'client_recvbuf_size' in opts and not g.note('coalesced_split_read'):
                 opts.pop('client_recvbuf_size', None)
+        if tape.coin(0.3, 'disable-headers'):
+            # the operator also disables some header: nothing to do with the credentials, which still never travel
+            opts['disable_headers'] = [[b'x-internal-trace'], [b'cookie', b'x-b']][tape.draw(2, 'which-disabled')]
+            w.probe('disabled_headers')
         flags = make_flags(threadless=True, local_executor=1, timeout=3600, plugins=plugins,
                            basic_auth=(user + b':' + pw).decode(), **opts)
         h = L1(w, flags)
